@@ -3,6 +3,7 @@ import PromModel.Suites.SelSuite
 import PromProofs.SelectorsMemo
 import PromProofs.SelectorsSub
 import PromProofs.SelectorsWin
+import PromProofs.SelectorsJudge
 /-
   C28 — Selectors implement lookback, staleness and range windows.
 
@@ -265,5 +266,30 @@ theorem subquery_end_spec (pStart pEnd pInterval off range interval : Int) (hp :
 
 example : subquerySteps (-7) (-7) 1 0 10 5 = [-15, -10] := by decide
 example : subquerySteps 1010000 1010000 1 0 10000 3000 = [1002000, 1005000, 1008000] := by decide
+
+
+/-! ### the judge's reference computations agree with the model (on well-formed series the model's own
+    outputs are accepted by the judge's selector semantics) -/
+open Prom.SelSuite in
+/-- the judge's instant lookup (filter the lookback window, keep the latest, drop if stale) = the model -/
+theorem judge_instant_eq_model (series : Series) (t lb off : Int) (atT : Option Int)
+    (hs : Sorted series) (hlb : 0 < lb) :
+    jInstant series lb (refTime t off atT) = instantSel series t lb off atT := by
+  rw [jInstant_eq_spec hs, instant_spec series t lb off atT hs hlb]
+
+open Prom.SelSuite in
+/-- the judge's range window (one filter) = the model's `matrixIterSlice` from scratch -/
+theorem judge_range_eq_model (series : Series) (t R off : Int) (atT : Option Int)
+    (hs : Sorted series) (hR : 0 < R) :
+    jWinOf (jRange series (refTime t off atT - R) (refTime t off atT)) = rangeSel series t R off atT := by
+  rw [jRange_eq_spec, range_spec series t R off atT hs hR]
+
+open Prom.SelSuite in
+/-- the judge's subquery grid (floor division) = the steps the model's child evaluator runs
+    (truncated division + adjustment), as sets -/
+theorem judge_grid_eq_model (pStart pEnd pInterval off range interval : Int) (hi : 0 < interval) (t : Int) :
+    t ∈ jMultiples (pStart - off - range) (subqueryTimeRange pStart pEnd pInterval off range interval).2 interval
+      ↔ t ∈ subquerySteps pStart pEnd pInterval off range interval := by
+  rw [jMultiples_spec _ _ _ hi, subquery_steps_spec _ _ _ _ _ _ hi]
 
 end Prom.C28
